@@ -46,9 +46,10 @@ CLAIMED = {
             'models on recorded traces; exhaustive bounded differential against an independent ES5.1 reference parser written in Lean',
             'tables_valid is decided in the kernel over every action/goto entry of the tables regenerated from /repo; lr_sound then '
             'gives, for EVERY token source, fuel and input, that an accepted parse is a derivation tree of the regenerated grammar '
-            'whose yield is exactly the shifted tokens (the tree the derivation dictates). Language equality with ES5 is not provable '
+            'whose yield is exactly the shifted tokens (the tree the derivation dictates); lexer_token_types_are_grammar_terminals / '
+            'every_terminal_is_used tie the lexer vocabulary to the grammar terminals (kernel decisions). Language equality with ES5 is not provable '
             'here: it is covered by the differential judge (all token strings up to length 2-3 over a 56-token alphabet, sampled '
-            'length 3-4, G1/G2/G4) against Spec.Es5Parse, with the recorded deviations excluded by narrow syntactic class predicates.',
+            'length 3-4, G1/G2/G4, a statement head x separator x statement start family) against Spec.Es5Parse, with the recorded deviations excluded by narrow syntactic class predicates.',
             'Trusted: Lean kernel, standard axioms, translators g_tables.py/g_actions.py, Spec.Es5Parse as a reading of ECMA-262 5.1; '
             'ply LALR construction itself is not verified (the tables are the object of study); missing-goto freedom is tie-only.',
             'DESIGN.md §6 C03'),
